@@ -221,6 +221,18 @@ func (h *histRunner) run(seq []int) (res histResult) {
 	if !observe("final-restart") {
 		return
 	}
+	// once more with wrapped stores that answer every enumeration with short pages (one blob per page
+	// although more remain, which "at most limit" allows): recovery must page until an empty page
+	w.meta.MaxPage, w.blobs.MaxPage = 1, 1
+	res.Transitions++
+	if err := w.restart(); err != nil {
+		fail("final-restart-short-pages", "restart-failed", err.Error())
+		return
+	}
+	if !observe("final-restart-short-pages") {
+		return
+	}
+	w.meta.MaxPage, w.blobs.MaxPage = 0, 0
 	ak := ""
 	for i, a := range acked {
 		if a {
